@@ -160,19 +160,37 @@ def explore(index, reg: Registry, ci: ContractInfo, prop: str, known_excludes=()
     return explore_prefix(index, reg, ci, prop, [], known_excludes, max_paths)
 
 
-def first_level(index, reg: Registry, ci: ContractInfo, prop: str, known_excludes=()):
-    """Decision prefixes that partition the path tree at its first fork (work units for the process pool)."""
+def first_level(index, reg: Registry, ci: ContractInfo, prop: str, known_excludes=(), want=48, max_depth=4):
+    """Decision prefixes that partition the path tree (work units for the process pool): the tree is expanded breadth-first
+    along the first forks until there are enough units."""
     f = index.function(ci.target) if ci.kind == 'function' else None
     I = Interp(index, reg)
-    I.reset([])
-    I.verifying = f.qualname if f is not None else None
-    try:
-        run_one(I, reg, ci, f, known_excludes)
-    except (Infeasible, Unsupported, PyRaise, RecursionError):
-        pass
-    if I.arities and I.arities[0] > 1:
-        return [[k] for k in range(I.arities[0])]
-    return [[]]
+    prefixes = [[]]
+    for depth in range(max_depth):
+        if len(prefixes) >= want:
+            break
+        nxt = []
+        grew = False
+        for p in prefixes:
+            if len(p) < depth:          # a leaf found earlier
+                nxt.append(p)
+                continue
+            I.reset(p)
+            I.verifying = f.qualname if f is not None else None
+            try:
+                run_one(I, reg, ci, f, known_excludes)
+            except (Infeasible, Unsupported, PyRaise, RecursionError):
+                pass
+            if len(I.arities) > len(p) and I.arities[len(p)] > 1:
+                for k in range(I.arities[len(p)]):
+                    nxt.append(list(p) + [k])
+                grew = True
+            else:
+                nxt.append(p)
+        prefixes = nxt
+        if not grew:
+            break
+    return prefixes
 
 
 def explore_prefix(index, reg: Registry, ci: ContractInfo, prop: str, prefix, known_excludes=(), max_paths=MAX_PATHS):
@@ -199,6 +217,8 @@ def explore_prefix(index, reg: Registry, ci: ContractInfo, prop: str, prefix, kn
             rep.infeasible += 1
         except Unsupported as e:
             status = 'unsupported'
+            if os.environ.get('PYVC_DEBUG'):
+                traceback.print_exc()
             msg = f'{e} (in {I.cur_func}:{I.cur_line})'
             if msg not in seen_unsupported:
                 seen_unsupported.add(msg)
